@@ -327,6 +327,145 @@ theorem C16_command_answer (n : Net) (x z : Nat) (c : Cmd) (a b : Node) (cn : Co
   simp only [arr.src, arr.srcOn, arr.conn, arr.srcTerm, arr.path, arr.dst, hs, hc, Bool.not_true, Bool.false_eq_true, if_false, if_true]
   exact ⟨trivial, rfl⟩
 
+/-! ### the whole chain of a nested command, as one statement -/
+
+/-- "Operation `op`, started in state `n`, creates file `k` on node `y` through a chain of accepted terminal commands": either the
+direct file request to `y` (ON), or a remote command that arrived on a connection whose id is at that moment a remote session and a
+connection of the next node — whose carried command is again such a chain, started in the state where only that session's clock
+was set — or a local command with credentials passing `_login` on a node whose terminal is RUNNING, likewise. -/
+inductive FileChain : Net → Op → Nat → Nat → Prop
+  | direct (n : Net) (y k : Nat) (b : Node) (hb : n.node y = some b) (hon : b.isOn = true) : FileChain n (.req y (.file k)) y k
+  | remote (n : Net) (x z : Nat) (c : Cmd) (a' b' : Node) (cn : Conn) (y k : Nat) (arr : CmdArrives n x z a' b' cn)
+      (hs : b'.hasSession cn.id = true) (hc : b'.hasConn cn.id = true)
+      (rest : FileChain (n.upd z (Node.touch cn.id n.time)) (.req z c) y k) : FileChain n (.req x (.remoteCmd z c)) y k
+  | local (n : Net) (x : Nat) (u p : String) (c : Cmd) (nd : Node) (id : Nat) (y k : Nat) (hnd : n.node x = some nd)
+      (hon : nd.isOn = true) (hok : nd.loginOk u p = true) (hrun : nd.term.running = true)
+      (hid : (localLogin n x u p).2 = some id)
+      (rest : FileChain ((localLogin n x u p).1.upd x (Node.addConn ⟨id, none⟩)) (.req x c) y k) :
+      FileChain n (.req x (.localCmd u p c)) y k
+
+theorem files_of_keepFiles {n m : Net} (h : Net.Rel KeepFiles n m) {y : Nat} {b : Node} (hb : n.node y = some b) :
+    ∃ b', m.node y = some b' ∧ b'.files = b.files := h.node y b hb
+
+/-- **C16, commands (closed form over the whole nesting).** If any operation changes the files of node `y`, then it is a
+`FileChain`: at EVERY hop of the nested command the sender was ON with its terminal RUNNING, the path to the next node was open in
+the request direction, and the connection used carried the id of a session the next node listed at that moment (or the hop was a
+local command with valid credentials); exactly the commanded file was added.  No depth bound. -/
+theorem C16_command_runs_only_live_closed (n : Net) (op : Op) (y : Nat) (b a : Node) (hb : n.node y = some b)
+    (ha : (step n op).1.node y = some a) (hne : a.files ≠ b.files) : ∃ k, FileChain n op y k ∧ a.files = b.files ++ [k] := by
+  cases op with
+  | req x c =>
+    induction c generalizing n x b with
+    | remoteCmd z c ih =>
+      rcases C16_command_runs_only_live n _ y b a hb ha hne with ⟨_, h, _⟩ | h
+      · cases h
+      · cases h with
+        | «local» y' u p c' nd id hop => cases hop
+        | remote x' z' c' a' b' cn hop arr hs hc heq =>
+          cases hop
+          rw [heq] at ha
+          obtain ⟨b1, hb1, hf1⟩ := files_of_keepFiles (keepFiles_frame.rel_upd (keepFiles_frame.rel_refl n) z
+            (Node.touch cn.id n.time) (fun _ => rfl)) hb
+          obtain ⟨k, hch, hfiles⟩ := ih _ b1 hb1 (by rw [hf1]; exact hne) z ha
+          exact ⟨k, FileChain.remote n x z c a' b' cn y k arr hs hc hch, by rw [hfiles, hf1]⟩
+    | localCmd u p c ih =>
+      rcases C16_command_runs_only_live n _ y b a hb ha hne with ⟨_, h, _⟩ | h
+      · cases h
+      · cases h with
+        | remote x' z' c' a' b' cn hop => cases hop
+        | «local» y' u' p' c' nd id hop hnd hon hok hrun hid heq =>
+          cases hop
+          rw [heq] at ha
+          have hrel : Net.Rel KeepFiles n ((localLogin n x u p).1.upd x (Node.addConn ⟨id, none⟩)) :=
+            keepFiles_frame.rel_upd (keepFiles_frame.toPre.localLogin n x u p (fun _ _ => rfl)) x _ (fun _ => rfl)
+          obtain ⟨b1, hb1, hf1⟩ := files_of_keepFiles hrel hb
+          obtain ⟨k, hch, hfiles⟩ := ih _ b1 hb1 (by rw [hf1]; exact hne) x ha
+          exact ⟨k, FileChain.local n x u p c nd id y k hnd hon hok hrun hid hch, by rw [hfiles, hf1]⟩
+    | file k =>
+      rcases C16_command_runs_only_live n _ y b a hb ha hne with ⟨k', h, hon, hf⟩ | h
+      · cases h; exact ⟨k, FileChain.direct n y k b hb hon, hf⟩
+      · exact (not_carried_of_atomic rfl h).elim
+    | addUser u p adm =>
+      rcases C16_command_runs_only_live n _ y b a hb ha hne with ⟨_, h, _⟩ | h
+      · cases h
+      · exact (not_carried_of_atomic rfl h).elim
+    | disableUser u =>
+      rcases C16_command_runs_only_live n _ y b a hb ha hne with ⟨_, h, _⟩ | h
+      · cases h
+      · exact (not_carried_of_atomic rfl h).elim
+    | changePassword u o nw =>
+      rcases C16_command_runs_only_live n _ y b a hb ha hne with ⟨_, h, _⟩ | h
+      · cases h
+      · exact (not_carried_of_atomic rfl h).elim
+    | remoteLogin z u p =>
+      rcases C16_command_runs_only_live n _ y b a hb ha hne with ⟨_, h, _⟩ | h
+      · cases h
+      · exact (not_carried_of_atomic rfl h).elim
+    | remoteLogoff z =>
+      rcases C16_command_runs_only_live n _ y b a hb ha hne with ⟨_, h, _⟩ | h
+      · cases h
+      · exact (not_carried_of_atomic rfl h).elim
+    | usmLogin u p peer =>
+      rcases C16_command_runs_only_live n _ y b a hb ha hne with ⟨_, h, _⟩ | h
+      · cases h
+      · exact (not_carried_of_atomic rfl h).elim
+    | usmLogout i =>
+      rcases C16_command_runs_only_live n _ y b a hb ha hne with ⟨_, h, _⟩ | h
+      · cases h
+      · exact (not_carried_of_atomic rfl h).elim
+    | svc w v =>
+      rcases C16_command_runs_only_live n _ y b a hb ha hne with ⟨_, h, _⟩ | h
+      · cases h
+      · exact (not_carried_of_atomic rfl h).elim
+    | shutdown =>
+      rcases C16_command_runs_only_live n _ y b a hb ha hne with ⟨_, h, _⟩ | h
+      · cases h
+      · exact (not_carried_of_atomic rfl h).elim
+    | startup =>
+      rcases C16_command_runs_only_live n _ y b a hb ha hne with ⟨_, h, _⟩ | h
+      · cases h
+      · exact (not_carried_of_atomic rfl h).elim
+    | reset =>
+      rcases C16_command_runs_only_live n _ y b a hb ha hne with ⟨_, h, _⟩ | h
+      · cases h
+      · exact (not_carried_of_atomic rfl h).elim
+  | enableUser y' u =>
+    rcases C16_command_runs_only_live n _ y b a hb ha hne with ⟨_, h, _⟩ | h
+    · cases h
+    · cases h with
+      | remote x' z' c' a' b' cn hop => cases hop
+      | «local» y'' u' p' c' nd id hop => cases hop
+  | addUserBypass y' u p adm =>
+    rcases C16_command_runs_only_live n _ y b a hb ha hne with ⟨_, h, _⟩ | h
+    · cases h
+    · cases h with
+      | remote x' z' c' a' b' cn hop => cases hop
+      | «local» y'' u' p' c' nd id hop => cases hop
+  | localLogin y' u p =>
+    rcases C16_command_runs_only_live n _ y b a hb ha hne with ⟨_, h, _⟩ | h
+    · cases h
+    · cases h with
+      | remote x' z' c' a' b' cn hop => cases hop
+      | «local» y'' u' p' c' nd id hop => cases hop
+  | localLogout y' =>
+    rcases C16_command_runs_only_live n _ y b a hb ha hne with ⟨_, h, _⟩ | h
+    · cases h
+    · cases h with
+      | remote x' z' c' a' b' cn hop => cases hop
+      | «local» y'' u' p' c' nd id hop => cases hop
+  | tick =>
+    rcases C16_command_runs_only_live n _ y b a hb ha hne with ⟨_, h, _⟩ | h
+    · cases h
+    · cases h with
+      | remote x' z' c' a' b' cn hop => cases hop
+      | «local» y'' u' p' c' nd id hop => cases hop
+  | setBlock x' y' on =>
+    rcases C16_command_runs_only_live n _ y b a hb ha hne with ⟨_, h, _⟩ | h
+    · cases h
+    · cases h with
+      | remote x'' z' c' a' b' cn hop => cases hop
+      | «local» y'' u' p' c' nd id hop => cases hop
+
 /-! ### non-vacuity -/
 
 /-- `demoNet` with the direction 1 → 0 blocked: requests of node 0 reach node 1, the replies are dropped -/
@@ -365,6 +504,10 @@ example : ((run demoNet [login01, .setBlock 0 1 true, .req 0 (.remoteLogoff 1)])
 example : ((run demoNet [login01, .setBlock 1 0 true, .tick, .tick]).node 0).map (·.conns.length) = some 1 ∧
     ((run demoNet [login01, .setBlock 1 0 true, .tick, .tick]).node 1).map (·.rem.length) = some 0 := by decide
 example : (step (run demoNet [login01, .setBlock 1 0 true, .tick, .tick, .setBlock 1 0 false]) (cmd01 (.file 5))).2 = .failure := by decide
+-- the hypotheses of the closed form are met by a two-hop nested command (node 2's files change)
+example : ((run demoNet [login01, cmd01 (.remoteLogin 2 "admin" "admin")]).node 2).map (·.files) = some [] ∧
+    ((run demoNet [login01, cmd01 (.remoteLogin 2 "admin" "admin"), cmd01 (.remoteCmd 2 (.file 9))]).node 2).map (·.files) = some [9] := by
+  decide
 -- the gateway hairpin: on a routed topology a node can open a session on itself (and only with valid credentials)
 example : (step { demoNet with hairpin := true } (.req 1 (.remoteLogin 1 "admin" "admin"))).2 = .success := by decide
 example : (step { demoNet with hairpin := true } (.req 1 (.remoteLogin 1 "admin" "nope"))).2 = .failure := by decide
